@@ -134,6 +134,7 @@ class SolvePDE(Ob):
     dirty = False
     dirty_face = 'left'
     claimed_scale = 2.0       # the factor of the scaled term in the claimed row identity (a canary claims 1.0)
+    signed_pairs = False      # (matrix, vector) pairs handed over as utilities.SignedTuple, negated / unary-plus
 
     def parts(self, w):
         return ['rows', 'result']
@@ -151,6 +152,19 @@ class SolvePDE(Ob):
         dt = w.scalar('dt', 'pos')
         Mt, Rt = src_.transientTerm(phi, dt, 1.0)
         terms = [(Mt, Rt), -z['Md'], z['Mu'], 2.0 * z['Ms'], z['Rg'], -z['Rg']]
+        pairs = None
+        if self.signed_pairs:
+            # negated / unary-plus (matrix, vector) pairs: utilities.SignedTuple is the library's vehicle for them
+            tp = utl.SignedTuple((Mt, Rt))
+            td = utl.SignedTuple((z['Md'], z['Rg']))
+            neg, pos = -tp, +td
+            terms = [neg, pos, 2.0 * z['Ms']]
+            try:
+                utl.SignedTuple((Mt, object.__new__(_NoNeg)))
+                rejected = False
+            except ValueError:
+                rejected = True
+            pairs = dict(tp=tp, td=td, neg=neg, pos=pos, rejected=rejected)
         if self.dirty:
             # pending edit of a boundary coefficient (of ONE face, after reaching a clean state): the cached boundary
             # term must be rebuilt before use
@@ -174,7 +188,8 @@ class SolvePDE(Ob):
             return rec['x']
         res = pde.solvePDE(phi, terms, externalsolver=solver)
         psi = w.rawcell('psi')._value
-        return dict(phi=phi, res=res, rec=rec, Mbc=Mbc, RHSbc=RHSbc, terms=terms, psi=psi, z=z, Mt=Mt, Rt=Rt, coefs=coefs)
+        return dict(phi=phi, res=res, rec=rec, Mbc=Mbc, RHSbc=RHSbc, terms=terms, psi=psi, z=z, Mt=Mt, Rt=Rt, coefs=coefs,
+                    pairs=pairs)
 
     def claims(self, w, S, P, part):
         rec = S['rec']
@@ -193,6 +208,20 @@ class SolvePDE(Ob):
             psi = S['psi']
             lhs = w.apply(rec['M'], psi, P) - w.vec(rec['RHS'], P)
             z = S['z']
+            if self.signed_pairs:
+                # -(Mt, Rt) + (Md, Rg) + 2 Ms ; Mt / Rt / Md / Rg are the objects the pairs were built from, so a
+                # negation that flipped them in place would also fail here
+                pr = S['pairs']
+                want = (w.apply(S['Mbc'], psi, P) - w.vec(S['RHSbc'], P)
+                        - (w.apply(S['Mt'], psi, P) - w.vec(S['Rt'], P))
+                        + (w.apply(z['Md'], psi, P) - w.vec(z['Rg'], P))
+                        + self.claimed_scale * w.apply(z['Ms'], psi, P))
+                out.append(('system_row_is_bc_plus_signed_pairs', w.eq(lhs, want)))
+                out.append(('negated_pair_is_componentwise_negation',
+                            w.eq(w.apply(pr['neg'][0], psi, P) - w.vec(pr['neg'][1], P),
+                                 -(w.apply(S['Mt'], psi, P) - w.vec(S['Rt'], P)))))
+                out.append(('negated_matrix_alone', w.eq(w.apply(pr['neg'][0], psi, P), -w.apply(S['Mt'], psi, P))))
+                return out
             want = (w.apply(S['Mbc'], psi, P) - w.vec(S['RHSbc'], P)
                     + w.apply(S['Mt'], psi, P) - w.vec(S['Rt'], P)
                     - w.apply(z['Md'], psi, P) + w.apply(z['Mu'], psi, P) + self.claimed_scale * w.apply(z['Ms'], psi, P)
@@ -201,6 +230,14 @@ class SolvePDE(Ob):
             return out
         ok = (S['res'] is S['phi']) and rec.get('n') == 1
         out.append(('returns_same_object_and_one_solver_call', (B.const(ok) if w.symbolic else ok)))
+        if self.signed_pairs:
+            pr = S['pairs']
+            shape_ok = (type(pr['neg']) is utl.SignedTuple and isinstance(pr['neg'], tuple) and len(pr['neg']) == 2
+                        and pr['pos'] is pr['td'] and len(pr['tp']) == 2
+                        and pr['tp'][0] is S['Mt'] and pr['tp'][1] is S['Rt']
+                        and pr['neg'][0] is not S['Mt'] and pr['neg'][1] is not S['Rt']
+                        and type(-pr['neg']) is utl.SignedTuple and pr['rejected'])
+            out.append(('signed_tuple_protocol', (B.const(shape_ok) if w.symbolic else shape_ok)))
         if w.symbolic:
             interior = all(CTX.decide((I(P[a]) >= 1) & (I(P[a]) <= w.N[a])) for a in range(w.nd))
             if interior:
@@ -212,6 +249,21 @@ class SolvePDE(Ob):
         flags = (not S['phi'].BCs.modified) and (not S['phi'].value.modified)
         out.append(('dirty_bits_cleared', (B.const(flags) if w.symbolic else flags)))
         return out
+
+
+class _NoNeg:
+    """an object without unary minus (object.__new__(_NoNeg) has no __neg__)"""
+
+
+class SolvePDESignedPairs(SolvePDE):
+    """negated / unary-plus (matrix, vector) pairs: utilities.SignedTuple negates component-wise into a new SignedTuple,
+    leaves its components alone, `+t is t`, refuses components without unary minus (ValueError), and solvePDE
+    accumulates such pairs like plain tuples"""
+    name = 'solvePDE/signed_pairs_negated_and_plus'
+    props = ('C04',)
+    signed_pairs = True
+    functions = ('pyfvtool.utilities.SignedTuple.__init__', 'pyfvtool.utilities.SignedTuple.__neg__',
+                 'pyfvtool.utilities.SignedTuple.__pos__')
 
 
 class SolvePDEDirty(SolvePDE):
